@@ -1,7 +1,9 @@
 """C06 -- a reading is discarded iff NIS > k*sqrt(2m)+m; a discard changes nothing."""
 import json
 
+import cppcheck
 import numeric
+import scen
 
 
 def _post(ctx, scns, results):
@@ -22,6 +24,7 @@ def _post(ctx, scns, results):
     rc = cppcheck.replay_cpp(ctx, pick, cse_settings=(True,), kind="ekf")
     extra = cppcheck.record(ctx, rc, key_prefix="cpp:")
     extra.update(gate_agreement(ctx))
+    extra.update(gate_through_filters(ctx))
     return extra
 
 
@@ -41,6 +44,74 @@ def run(ctx):
 
 def replay(ctx, path):
     return numeric.replay_file(ctx, path)
+
+
+# ---------------------------------------------------------------- gate cases through whole filters ----
+def _case_scenarios(cases):
+    """GateCases.tla cases (k, m, y, diagonal S^-1 in {1, 1/2}) as behaviours of an m-state identity model with an m-reading
+    identity sensor: P = Q = S/2 (so S = H P H^T + Q exactly, in floating point too), estimate 0, reading y.  The innovation is
+    y, the normalised innovation exactly the case's, an accepted update gives x = y/2, P = S/4, a discarded one gives back x = 0, P = S/2."""
+    from fractions import Fraction
+    groups = {}
+    for c in cases:
+        groups.setdefault((c["m"], json.dumps(c["k"]), json.dumps(c["sdiag"])), []).append(c)
+    scns = []
+    for (m, kj, sj), cs in sorted(groups.items()):
+        names = ["x%02d" % i for i in range(m)]
+        rds = ["r%02d" % i for i in range(m)]
+        S = [1 / Fraction(q[0], q[1]) for q in cs[0]["sdiag"]]
+
+        def rat(f):
+            f = Fraction(f)
+            return [f.numerator, f.denominator]
+        d = {"state": names, "control": [], "calib": [], "update": {n: {"op": "sym", "name": n} for n in names}, "calmap": {}, "pnoise": {},
+             "sensors": {"s1": {r: {"op": "sym", "name": n} for r, n in zip(rds, names)}},
+             "snoise": {"s1": {r: rat(S[i] / 2) for i, r in enumerate(rds)}}, "k": json.loads(kj)}
+        P0 = {r: {c: rat(S[i] / 2 if i == j else 0) for j, c in enumerate(names)} for i, r in enumerate(names)}
+        x0 = {n: [0, 1] for n in names}
+        steps = []
+        for c in cs:
+            y = [Fraction(q[0], q[1]) for q in c["y"]]
+            steps.append({"act": "SetEstimate", "x": x0, "P": P0})
+            if c["discard"]:
+                x1, P1, outcome = x0, P0, "rejected"
+            else:
+                x1 = {n: rat(y[i] / 2) for i, n in enumerate(names)}
+                P1 = {r: {cc: rat(S[i] / 4 if i == j else 0) for j, cc in enumerate(names)} for i, r in enumerate(names)}
+                outcome = "accepted"
+            steps.append({"act": "Update", "key": "s1", "z": {r: rat(y[i]) for i, r in enumerate(rds)}, "outcome": outcome, "x": x1, "P": P1,
+                          "innov": {r: rat(y[i]) for i, r in enumerate(rds)}, "_boundary": bool(c["boundary"])})
+        scns.append({"_id": "gatecase:%d:%s:%s" % (m, kj, sj), "def": d, "steps": steps,
+                     "layout": {"state": names, "control": [], "calib": [], "sensors": ["s1"], "readings": {"s1": rds}}})
+    return scns
+
+
+def gate_through_filters(ctx):
+    """(e) the exact cases of GateCases.tla -- all boundary cases and their neighbours -- through python sensor_model and the
+    GENERATED C++ sensor update (its own guard, not only the helper it normally calls)"""
+    import tlc
+    r = tlc.run("MC_GateCases", cfg=("MC_GateCases_q.cfg" if ctx.quick else "MC_GateCases.cfg"), workers=ctx.cores, timeout=900)
+    if r.violation:
+        return {}
+    per_group = 6 if ctx.quick else 40
+    pick, seen = [], {}
+    for c in r.printed:
+        if c["m"] not in (2, 8):
+            continue
+        g = (c["m"], json.dumps(c["k"]), json.dumps(c["sdiag"]))
+        if c["boundary"] or seen.get(g, 0) < per_group:
+            seen[g] = seen.get(g, 0) + (0 if c["boundary"] else 1)
+            pick.append(c)
+    scns = _case_scenarios(pick)
+    if ctx.quick:      # all m = 2 groups, two m = 8 groups
+        scns = [s for s in scns if s["_id"].startswith("gatecase:2:")] + [s for s in scns if s["_id"].startswith("gatecase:8:")][:2]
+    res = scen.replay_all(ctx, scns, cse_settings=(True,), force_ekf=True, presentation={"container": "set"})
+    c_py = scen.record_results(ctx, res, key_prefix="gatecase:py:")
+    rc = cppcheck.replay_cpp(ctx, scns, cse_settings=(True,), kind="ekf", presentation={"container": "set"})
+    c_cpp = cppcheck.record(ctx, rc, key_prefix="gatecase:cpp:")
+    nb = sum(1 for s in scns for st in s["steps"] if st.get("_boundary"))
+    return {"gate_cases_through_filters": {"filters": len(scns), "updates": sum(len(s["steps"]) // 2 for s in scns), "exact_boundary_updates": nb,
+                                           "python": c_py, "cpp": c_cpp}}
 
 
 # ---------------------------------------------------------------- gate agreement (helper, boundary) ----
